@@ -195,8 +195,17 @@ def context_cases(ctx: Ctx) -> List[Dict[str, Any]]:
         out.append(base(between={"M1-M3": [kind]}))
         out.append(base(between={"M3-M5": [kind]}))
         out.append(base(between={"pre": [kind], "M1-M3": [kind], "M3-M5": [kind]}))
+    # another accessory with another setup code in the same process was used first / the setup code of this
+    # driver was changed after an earlier exchange: the controller with the CURRENT code of THIS accessory completes
+    for same in (False, True, False, True):
+        other = _code(rng)
+        out.append(base(before={"code": other, "acc_seed": hx(bytes(rng.randrange(256) for _ in range(32))),
+                                "seed": rng.getrandbits(32), "same_driver": same}))
     for _ in range(ctx.n(8, 300)):
         c = base(conn=rng.choice([0, 0, 1]))
+        if rng.random() < 0.15:
+            c["before"] = {"code": _code(rng), "acc_seed": hx(bytes(rng.randrange(256) for _ in range(32))),
+                           "seed": rng.getrandbits(32), "same_driver": rng.random() < 0.5}
         if rng.random() < 0.7:
             c["prefix"] = [pre(rng.choice(FAILED_ATTEMPTS + ABANDONED), rng.choice([0, 1])) for _ in range(rng.randrange(1, 4))]
         if rng.random() < 0.6:
@@ -281,8 +290,20 @@ def run_exchange(case: Dict[str, Any]):
     a = int(case["a"], 16)
     ident = case["ident"].encode()
     ltsk = ed25519.Ed25519PrivateKey.from_private_bytes(bytes.fromhex(case["ctrl_seed"]))
-    env = pe.Env(code, bytes.fromhex(case["acc_seed"]), mac=case.get("mac", "AA:BB:CC:DD:EE:FF"))
-    sc = pe.Script(env)
+    before = case.get("before")
+    other_env = None
+    if before and before.get("same_driver"):
+        # one driver: an exchange under the OLD setup code (abandoned after M4), then the owner changes the code
+        env = pe.Env(before["code"].encode(), bytes.fromhex(case["acc_seed"]), mac=case.get("mac", "AA:BB:CC:DD:EE:FF"))
+        sc = pe.Script(env)
+        _honest_run(sc, before["code"].encode(), before["seed"], full=False)
+        sc.set_code(code)
+    else:
+        if before:   # another accessory with another setup code in the same process pairs first
+            other_env = pe.Env(before["code"].encode(), bytes.fromhex(before["acc_seed"]), mac="0A:0B:0C:0D:0E:0F")
+            _honest_run(pe.Script(other_env), before["code"].encode(), before["seed"], full=True)
+        env = pe.Env(code, bytes.fromhex(case["acc_seed"]), mac=case.get("mac", "AA:BB:CC:DD:EE:FF"))
+        sc = pe.Script(env)
     v: Dict[str, Any] = {"stage": "M1", "ok": False, "why": "", "K0": None}
     adv_id = sc.advert()   # how the controller found the accessory: the id of its real Bonjour advertisement
     conn = case.get("conn", 0)
@@ -349,6 +370,28 @@ def run_exchange(case: Dict[str, Any]):
         return sc, v
     finally:
         env.close()
+        if other_env is not None:
+            other_env.close()
+
+
+def _honest_run(sc, code: bytes, seed: int, full: bool):
+    """a correct exchange of some controller through script `sc` (M1..M4, and M5/M6 if `full`); not judged"""
+    import random as _random
+
+    from cryptography.hazmat.primitives.asymmetric import ed25519
+
+    rng = _random.Random(seed)
+    rb = lambda n: bytes(rng.randrange(256) for _ in range(n))  # noqa: E731
+    r = sc.send(pc.m1_body(), rb(16), rb(32), conn=7)
+    t = pc.parse(r["body"]) or {}
+    if pc.T_SALT not in t:
+        return
+    cl = ref.client(code, t[pc.T_SALT], t[pc.T_PUBLIC_KEY], rng.getrandbits(256) | 1)
+    sc.send(pc.m3_body(cl.A_bytes, cl.M1), rb(16), rb(32), conn=7)
+    if full:
+        ident = b"99999999-8888-7777-6666-555555555555"
+        sub, _ = pc.m5_subtlv(cl.K, ident, ed25519.Ed25519PrivateKey.from_private_bytes(rb(32)))
+        sc.send(pc.m5_body(cl.K, sub), rb(16), rb(32), conn=7, idents=[ident])
 
 
 FAILED_ATTEMPTS = ("wrong-code", "wrong-proof", "bogus-M3", "short-M3", "garbage", "M3-no-M1", "degenerate", "bad-M5")
@@ -423,6 +466,8 @@ def _context(case) -> str:
         parts.append("bystander-connection-lost")
     if "get" in by:
         parts.append("bystander-request")
+    if case.get("before"):
+        parts.append("after-setup-code-change" if case["before"].get("same_driver") else "after-exchange-on-another-accessory")
     return "+".join(parts)
 
 
@@ -567,11 +612,13 @@ def run(ctx: Ctx):
         for pos, ks in case.get("between", {}).items():
             for k in ks:
                 st.hit("op", f"bystander-{k}@{pos}")
+        if case.get("before"):
+            st.hit("op", "world-" + ("setup-code-changed" if case["before"].get("same_driver") else "other-accessory-first"))
         st.hit("outcome", "exchange-" + ("completed" if v["ok"] else "failed-at-" + v["stage"]))
         for k, n in (v.get("lead") or {}).items():
             if n:
                 st.hit("outcome", f"leading-zero-{k}")
-        st.case(["x", case["code"], case["salt"], case["b"], case["a"], case.get("prefix"), case.get("between")], True)
+        st.case(["x", case["code"], case["salt"], case["b"], case["a"], case.get("prefix"), case.get("between"), case.get("before")], True)
 
     model = run_model_parallel("C08", lines, workers=12)
     for ln, m, i, tag in zip(lines, model, impl, tags):
@@ -618,9 +665,8 @@ def search(ctx: Ctx):
         cases += context_cases(ctx)
     finally:
         ctx.tier = saved
-    for case in cases:
-        _, v = run_exchange(case)
-        oracle_exchange(ctx, case, v)
+    for case, w in zip(cases, pe.pmap(_exchange_worker, cases, workers=12)):
+        oracle_exchange(ctx, case, w["v"])
 
 
 def replay(ctx: Ctx, r):
@@ -628,6 +674,9 @@ def replay(ctx: Ctx, r):
     if r["kind"] == "exchange":
         sc, v = run_exchange(c)
         oracle_exchange(ctx, c, v)
+        if c.get("before"):
+            print("before:", "setup code changed from" if c["before"].get("same_driver") else "another accessory paired first with code",
+                  c["before"]["code"])
         print("exchange:", {k: c[k] for k in ("code", "salt", "a", "b")})
         for n, res in enumerate(sc.results):
             if res.get("bystander") == "advert":
